@@ -34,19 +34,21 @@ SDS_BITS = {0x01: 8, 0x02: 16, 0x03: 24}
 
 
 def codec_of(fmt):
-    """(kind, w, fw, noff, scale|None, trunc): scale None = the float write rule of this codec is not stated here (no W-float twin)"""
+    """(kind, w, fw, noff, scale|None, trunc, woff): scale None = the float write rule of this codec is not stated here (no W-float twin);
+    woff = log2 of the float write factor with normalisation off"""
     c = fmt.codec
     if fmt.major == 0x11 and c in SDS_BITS:          # SDS packs 7 bits per byte: 2 / 3 / 4 bytes per sample = 14 / 21 / 28 bits of the int
         bw = SDS_BITS[c]
-        return ("int", {8: 14, 16: 21, 24: 28}[bw], 32, bw, 0x80000000, 1)
-    if fmt.major == 0x05 and c == 0x03:              # PAF 24-bit block codec: ints, 0x7FFFFFFF, norm off 1/256
-        return ("int", 24, 32, 8, 0x7FFFFFFF, 0)
-    return CODEC.get(c)
+        return ("int", {8: 14, 16: 21, 24: 28}[bw], 32, bw, 0x80000000, 1, bw)
+    if fmt.major == 0x05 and c == 0x03:              # PAF 24-bit block codec: ints, 0x7FFFFFFF, norm off: read 1/256, write 256
+        return ("int", 24, 32, 8, 0x7FFFFFFF, 0, 8)
+    cd = CODEC.get(c)
+    return cd + (0,) if cd else None
 
 
 def codec_line(cd, ch, norm=1):
-    kind, w, fw, noff, scale, trunc = cd
-    return "codec kind=%s w=%d fw=%d noff=%d scale=%d trunc=%d ch=%d normF=%d normD=%d" % (kind, w, fw, noff, scale or 0, trunc, ch, norm, norm)
+    kind, w, fw, noff, scale, trunc, woff = cd
+    return "codec kind=%s w=%d fw=%d noff=%d scale=%d trunc=%d woff=%d ch=%d normF=%d normD=%d" % (kind, w, fw, noff, scale or 0, trunc, woff, ch, norm, norm)
 
 
 def narrows(cd):
@@ -126,6 +128,25 @@ def float_values(rng, n, ty):
     return out
 
 
+def float_values_off(rng, n, ty, cd):
+    """unnormalised floats / doubles: integers, halves and fractions inside the range the stored sample can hold"""
+    kind, w, fw, noff, scale, trunc, woff = cd
+    R = (1 << (31 - woff)) if fw == 32 else (1 << (fw - 1))
+    out = []
+    special = [0.0, 1.0, -1.0, 1000.0, -1000.0, R - 1.0, -(R - 1.0), 0.5, 1.5, 2.5, -0.5, -1.5, 127.0, -128.0, 100.25, -100.75]
+    for i in range(n):
+        if i < len(special):
+            x = special[i]
+        elif rng.random() < 0.6:
+            x = float(rng.randrange(-R + 1, R))
+        else:
+            x = rng.randrange(-R + 1, R - 1) + rng.choice([0.5, 0.25, 0.75, 0.5])
+        if abs(x) > R - 1:
+            x = 0.0
+        out.append(K.f32bits(x) if ty == "f32" else K.f64bits(x))
+    return out
+
+
 # ---------------------------------------------------------------- jobs
 
 class Job:
@@ -140,6 +161,7 @@ class Job:
         if cd[0] == "int" and cd[4] is not None:
             for ty in ("f32", "f64"):
                 self.flt[ty] = float_values(rng, nflt * ch, ty)
+                self.flt["off-" + ty] = float_values_off(rng, 96 * ch, ty, cd)
         self.twins = {}
         self.plan_seed = rng.randrange(1 << 30)
 
@@ -156,9 +178,11 @@ class Job:
         L = []
         self.files = []
 
-        def wfile(k, ty, vals):
+        def wfile(k, ty, vals, normoff=False):
             h, s = "h%d" % k, "s%d" % k
             L.append(self.open_w(h, s))
+            if normoff:
+                L.extend(["cmd %s 1013 0 null" % h, "cmd %s 1012 0 null" % h])
             # a few calls: the staging loops of the converting writers restart at every call
             cut = (len(vals) // (3 * self.ch)) * self.ch
             if self.fmt.codec == 0x21:
@@ -179,6 +203,11 @@ class Job:
                 wfile(k, ty, self.flt[ty])
                 wfile(k + 1, "s32", self.twins[ty])
             k += 2
+        for ty in ("f32", "f64"):
+            if "off-" + ty in self.twins:
+                wfile(k, ty, self.flt["off-" + ty], normoff=True)
+                wfile(k + 1, "s32", self.twins["off-" + ty])
+            k += 2
         return "\n".join(L) + "\n"
 
     def read_script(self, filehex, frames, seekable, rng, ncalls):
@@ -197,7 +226,7 @@ class Job:
         for h, norm in (("h7", 1), ("h8", 0)):
             L.append(self.open_r(h, "s0"))
             if not norm:
-                L += ["cmd %s 1013 0 null" % h, "cmd %s 1012 0 null" % h]
+                L.extend(["cmd %s 1013 0 null" % h, "cmd %s 1012 0 null" % h])
             self.plan_at[norm] = len(L)
             pos, last = 0, None
             for _ in range(ncalls):
@@ -274,8 +303,8 @@ def run(ctx, budget=45.0):
     inp = []
     for j in jobs:
         for ty in j.flt:
-            inp.append(codec_line(j.cd, j.ch))
-            inp.append("%s %s" % (ty, K.hex_items(j.flt[ty], DIG[ty])))
+            inp.append(codec_line(j.cd, j.ch, 0 if ty.startswith("off-") else 1))
+            inp.append("%s %s" % (ty[-3:], K.hex_items(j.flt[ty], DIG[ty[-3:]])))
     out = []
     if inp:
         pairs = [inp[i:i + 2] for i in range(0, len(inp), 2)]
@@ -344,6 +373,11 @@ def run(ctx, budget=45.0):
             if ty in j.twins:
                 W += ["twin float " + ty, "xs " + K.hex_items(j.flt[ty], DIG[ty]), "ys " + K.hex_items(j.twins[ty], 8), "fx " + d[k], "fy " + d[k + 1]]
             k += 2
+        Woff = []
+        for ty in ("f32", "f64"):
+            if "off-" + ty in j.twins:
+                Woff += ["twin float " + ty, "xs " + K.hex_items(j.flt["off-" + ty], DIG[ty]), "ys " + K.hex_items(j.twins["off-" + ty], 8), "fx " + d[k], "fy " + d[k + 1]]
+            k += 2
         stats["twin_files"] += len(j.files)
         # (R) + (S)
         rl = rres.get(j.name, [])
@@ -362,8 +396,7 @@ def run(ctx, budget=45.0):
                 refs[t[1]] = dat[:max(ret, 0) * DIG[t[2]]]
         for norm in (1, 0):
             lines = ["== %s/%s" % (j.name, "on" if norm else "off"), codec_line(j.cd, j.ch, norm)]
-            if norm:
-                lines += W
+            lines += W if norm else Woff
             lines += ["ref s16 " + refs.get("h1", ""), "ref s32 " + refs.get("h2", ""),
                       "ref f32 " + refs.get("h3" if norm else "h5", ""), "ref f64 " + refs.get("h4" if norm else "h6", ""), "ragree", "plan"]
             a = j.plan_at[norm]
@@ -413,26 +446,27 @@ def clauses(verdict):
     return [c.split()[0][len("clause="):] for c in verdict.replace("bad ", "", 1).split("; ") if c.startswith("clause=")]
 
 
-def _twin_files(ctx, job, tyx, xs, tyy, ys):
+def _twin_files(ctx, job, tyx, xs, tyy, ys, normoff=False):
     L = []
     for k, (ty, vals) in enumerate(((tyx, xs), (tyy, ys))):
-        L += [job.open_w("h%d" % k, "s%d" % k), "w h%d %s i %d %s" % (k, ty, len(vals), K.hex_items(vals, DIG[ty])), "close h%d" % k, "dump s%d" % k]
+        L += [job.open_w("h%d" % k, "s%d" % k)] + (["cmd h%d 1013 0 null" % k, "cmd h%d 1012 0 null" % k] if normoff and k == 0 else [])
+        L += ["w h%d %s i %d %s" % (k, ty, len(vals), K.hex_items(vals, DIG[ty])), "close h%d" % k, "dump s%d" % k]
     script = "\n".join(L) + "\n"
     lines, rc, err = ctx.script(script)
     d = [_data(l) for l in lines if l.startswith("len=")]
     return script, (len(d) == 2 and d[0] != d[1]) or rc != 0, d
 
 
-def shrink_twin(ctx, job, tyx, xs, tyy, ys):
+def shrink_twin(ctx, job, tyx, xs, tyy, ys, normoff=False):
     """smallest prefix (whole frames, even for VOX) whose two files still differ, then drop leading frames while they still do"""
     step = job.ch * (2 if job.fmt.codec == 0x21 and job.ch % 2 else 1)
-    script, differs, _ = _twin_files(ctx, job, tyx, xs, tyy, ys)
+    script, differs, _ = _twin_files(ctx, job, tyx, xs, tyy, ys, normoff)
     if not differs:
         return script, xs, ys
     lo, hi = 0, len(xs) // step
     while hi - lo > 1:
         mid = (lo + hi) // 2
-        s2, d2, _ = _twin_files(ctx, job, tyx, xs[:mid * step], tyy, ys[:mid * step])
+        s2, d2, _ = _twin_files(ctx, job, tyx, xs[:mid * step], tyy, ys[:mid * step], normoff)
         if d2:
             hi = mid
         else:
@@ -442,10 +476,10 @@ def shrink_twin(ctx, job, tyx, xs, tyy, ys):
     for cutn in (len(xs) // step - 1, len(xs) // step // 2, 1, 1, 1):
         if cutn <= 0 or cutn * step >= len(xs):
             continue
-        s2, d2, _ = _twin_files(ctx, job, tyx, xs[cutn * step:], tyy, ys[cutn * step:])
+        s2, d2, _ = _twin_files(ctx, job, tyx, xs[cutn * step:], tyy, ys[cutn * step:], normoff)
         if d2:
             xs, ys = xs[cutn * step:], ys[cutn * step:]
-    script, differs, _ = _twin_files(ctx, job, tyx, xs, tyy, ys)
+    script, differs, _ = _twin_files(ctx, job, tyx, xs, tyy, ys, normoff)
     return script, xs, ys
 
 
@@ -470,7 +504,7 @@ def report(ctx, jobs, verdicts):
                 continue
             for cl in clauses(v):
                 base = cl.replace("-twin", "").replace("-class", "")
-                key = (base, j.fmt.codec)
+                key = (base, j.fmt.codec, sfx if base == "W-float" else "")
                 if key in seen:
                     continue                       # one replay per (clause, codec)
                 seen.add(key)
@@ -487,16 +521,17 @@ def report(ctx, jobs, verdicts):
                     else:
                         # which float type failed: re-run both
                         args = None
+                        pre = "" if norm else "off-"
                         for ty in ("f32", "f64"):
-                            if ty in j.twins:
-                                s0, differs, _ = _twin_files(ctx, j, ty, j.flt[ty], "s32", j.twins[ty])
+                            if pre + ty in j.twins:
+                                s0, differs, _ = _twin_files(ctx, j, ty, j.flt[pre + ty], "s32", j.twins[pre + ty], not norm)
                                 if differs:
-                                    args = (ty, j.flt[ty], "s32", j.twins[ty])
+                                    args = (ty, j.flt[pre + ty], "s32", j.twins[pre + ty])
                                     break
                         if args is None:
                             ty = "f32"
-                            args = (ty, j.flt[ty], "s32", j.twins[ty])
-                    script, xs, ys = shrink_twin(ctx, j, *args)
+                            args = (ty, j.flt[pre + ty], "s32", j.twins[pre + ty])
+                    script, xs, ys = shrink_twin(ctx, j, *args, normoff=(base == "W-float" and not norm))
                     ctx.violation("crosstype-%s-%s" % (j.name, base), head + "# twin files: the first is written from %d %s item(s) %s, the second from the %s twin(s) %s; their dumps must be identical\n--- script\n%s"
                                   % (len(xs), args[0], K.hex_items(xs[:8], DIG[args[0]]), args[2], K.hex_items(ys[:8], DIG[args[2]]), script))
                 else:
